@@ -26,6 +26,19 @@ CHECKS = {
              'larger ranges and many seeds must be a behaviour of the specification with the same invariants.',
         note='Which permutation is drawn is left to NumPy; re-shuffling asserted only for N>=8 over >=3 windows.',
         design='5/C04'),
+    'C08': dict(
+        technique='TLA+ spec FedData.tla (views in both the materialised-set and the accumulated-range representation) '
+                  'model-checked by TLC; every enumerated history replayed simultaneously into InMemory/SQLite/Subset '
+                  'datasets with every view re-observed through all access paths; long random histories validated as '
+                  'traces by TLC (FedDataTrace.tla)',
+        text='TLC proves that the two view representations the implementations use agree along every history, that '
+             'slices never enlarge and parents never change; all histories up to depth 2 (quick) / 3 (thorough) on 4 '
+             'corner-case ids are executed on the four real implementations and compared view by view, and random '
+             'histories of depth <= 5 on 7 ids (trailing zero bytes, prefixes, extreme bytes; bounds realised by '
+             'member and non-member strings) are accepted by the specification.',
+        note='Iteration order compared only for determinism; size-preserving client preprocessors; shuffled_clients '
+             'not called on empty views.',
+        design='5/C08'),
     'C09': dict(
         technique='TLA+ spec Experiment.tla model-checked by TLC (crash at every control state, liveness); real '
                   'run_federated_experiment explored breadth-first over crash-reachable directory states with an '
